@@ -19,8 +19,10 @@ import (
 	"sync"
 	"time"
 
+	"github.com/go-kit/log"
 	"go.universe.tf/metallb/internal/bgp"
 	"go.universe.tf/metallb/internal/bgp/community"
+	metallbconfig "go.universe.tf/metallb/internal/config"
 	corev1 "k8s.io/api/core/v1"
 )
 
@@ -107,19 +109,38 @@ type FrrSession struct {
 	Pre       []FrrAdv     `json:"pre"`
 }
 
-// FrrOp: new / set (advs = 1-based indices into Advs, in the order to pass) / preset (Pre) / close.
+// FrrOp: new / set (advs = 1-based indices into Advs, in the order to pass) / preset (Pre) / close /
+// syncbfd (SyncBFDProfiles with the same profiles again) / syncextra (SyncExtraInfo("")).
+// Refuse != "": TLC expects this Set to be refused ("63": more than 63 communities on a later
+// advertisement, "lp": one prefix with two local preferences).  Look > 0: observe after this
+// operation; Views[Look-1] is the state TLC expects (history scenarios).
 type FrrOp struct {
-	Op   string `json:"op"`
-	S    int    `json:"s"`
-	Advs []int  `json:"advs"`
+	Op     string `json:"op"`
+	S      int    `json:"s"`
+	Advs   []int  `json:"advs"`
+	Refuse string `json:"refuse"`
+	Look   int    `json:"look"`
 }
 
+// FrrViewSession: one session in the state expected after an operation of a history: open or not,
+// the advertisements of the last accepted Set, the other advertisements the history ever mentions
+// (indices into the session's Advs, which is the pool in a history scenario).
+type FrrViewSession struct {
+	Live bool  `json:"live"`
+	Advs []int `json:"advs"`
+	Pre  []int `json:"pre"`
+}
+
+// FrrScenario: a one-shot scenario (Views empty: every order is observed once, at its end, and
+// must show Sessions) or a history (one order, observed after every operation with Look > 0).
 type FrrScenario struct {
-	ID       string       `json:"id"`
-	Node     string       `json:"node"`
-	Ns       string       `json:"ns"`
-	Sessions []FrrSession `json:"sessions"`
-	Orders   [][]FrrOp    `json:"orders"`
+	ID       string             `json:"id"`
+	Node     string             `json:"node"`
+	Ns       string             `json:"ns"`
+	Sessions []FrrSession       `json:"sessions"`
+	Orders   [][]FrrOp          `json:"orders"`
+	Views    [][]FrrViewSession `json:"views"`
+	Frronly  bool               `json:"frronly"`
 }
 
 func FrrReadScenarios() []FrrScenario {
@@ -238,6 +259,127 @@ func FrrAdvs(list []FrrAdv, idx []int) []*bgp.Advertisement {
 
 // FrrWithText: keep the rendered text / JSON in the observation (replays, samples).
 func FrrWithText() bool { return os.Getenv("VERIF_TEXT") != "" }
+
+// FrrLook is what the harness knows when it observes: which operation, the sessions TLC expects
+// (echoed into the observation for the judge), which sessions are open, what went wrong.
+type FrrLook struct {
+	Step      int
+	Sessions  []FrrSession
+	Created   []bool
+	Errs      []string // unexpected errors so far
+	Refusals  []string // errors of the Sets TLC expected to be refused
+	RefusedOK bool     // every Set TLC expected to be refused returned an error
+}
+
+func frrPick(pool []FrrAdv, idx []int) []FrrAdv {
+	out := []FrrAdv{}
+	for _, i := range idx {
+		out = append(out, pool[i-1])
+	}
+	return out
+}
+
+func frrViewSessions(sc FrrScenario, view []FrrViewSession) []FrrSession {
+	out := make([]FrrSession, len(sc.Sessions))
+	for j, s := range sc.Sessions {
+		out[j] = s
+		out[j].Ghost = !view[j].Live
+		out[j].Advs = frrPick(s.Advs, view[j].Advs)
+		out[j].Pre = frrPick(s.Advs, view[j].Pre)
+	}
+	return out
+}
+
+// FrrBFDProfiles: the profiles the sessions of the scenario refer to.
+func FrrBFDProfiles(sc FrrScenario) map[string]*metallbconfig.BFDProfile {
+	profiles := map[string]*metallbconfig.BFDProfile{}
+	for _, s := range sc.Sessions {
+		if s.Bfd != "" {
+			profiles[s.Bfd] = &metallbconfig.BFDProfile{Name: s.Bfd}
+		}
+	}
+	return profiles
+}
+
+// FrrRun plays one list of operations on a session manager (FRR or FRR-K8s) and calls look where
+// the scenario wants an observation.  It drives and reports; it decides nothing.
+func FrrRun(sm bgp.SessionManager, l log.Logger, sc FrrScenario, ops []FrrOp, look func(FrrLook)) {
+	st := FrrLook{Errs: []string{}, Refusals: []string{}, RefusedOK: true}
+	profiles := FrrBFDProfiles(sc)
+	if len(profiles) > 0 {
+		if err := sm.SyncBFDProfiles(profiles); err != nil {
+			st.Errs = append(st.Errs, "bfd: "+err.Error())
+		}
+	}
+	live := map[int]bgp.Session{}
+	for k, op := range ops {
+		switch op.Op {
+		case "new":
+			s := sc.Sessions[op.S-1]
+			sess, err := sm.NewSession(l, FrrParams(s, sc.Node))
+			if err != nil {
+				st.Errs = append(st.Errs, fmt.Sprintf("new %s: %v", s.K, err))
+			} else {
+				live[op.S] = sess
+			}
+		case "set", "preset":
+			s := sc.Sessions[op.S-1]
+			sess, ok := live[op.S]
+			if !ok {
+				st.Errs = append(st.Errs, fmt.Sprintf("%s %s: no session", op.Op, s.K))
+				break
+			}
+			advs := FrrAdvs(s.Advs, op.Advs)
+			if op.Op == "preset" {
+				advs = FrrAdvs(s.Pre, FrrAllIdx(len(s.Pre)))
+			}
+			err := sess.Set(advs...)
+			switch {
+			case op.Refuse != "" && err == nil:
+				st.RefusedOK = false
+			case op.Refuse != "":
+				st.Refusals = append(st.Refusals, fmt.Sprintf("%s %s: %v", op.Op, s.K, err))
+			case err != nil:
+				st.Errs = append(st.Errs, fmt.Sprintf("%s %s: %v", op.Op, s.K, err))
+			}
+		case "close":
+			if sess, ok := live[op.S]; ok {
+				if err := sess.Close(); err != nil {
+					st.Errs = append(st.Errs, fmt.Sprintf("close %s: %v", sc.Sessions[op.S-1].K, err))
+				}
+				delete(live, op.S)
+			}
+		case "syncbfd":
+			if err := sm.SyncBFDProfiles(FrrBFDProfiles(sc)); err != nil {
+				st.Errs = append(st.Errs, "syncbfd: "+err.Error())
+			}
+		case "syncextra":
+			if err := sm.SyncExtraInfo(""); err != nil {
+				st.Errs = append(st.Errs, "syncextra: "+err.Error())
+			}
+		default:
+			panic("unknown op " + op.Op)
+		}
+		last := k == len(ops)-1
+		if op.Look == 0 && !(last && len(sc.Views) == 0) {
+			continue
+		}
+		o := st
+		o.Step = k + 1
+		o.Sessions = sc.Sessions
+		if op.Look > 0 {
+			o.Sessions = frrViewSessions(sc, sc.Views[op.Look-1])
+		}
+		o.Created = []bool{}
+		for i := range sc.Sessions {
+			_, ok := live[i+1]
+			o.Created = append(o.Created, ok)
+		}
+		o.Errs = append([]string{}, st.Errs...)
+		o.Refusals = append([]string{}, st.Refusals...)
+		look(o)
+	}
+}
 
 func FrrAllIdx(n int) []int {
 	out := make([]int, n)
